@@ -250,9 +250,11 @@ func runC03(tier string, seed uint64, o *Out) error {
 	rng := NewRNG(NewRNG(seed).Next())
 	nD, nP, nG, nS := 2500, 600, 500, 90
 	nDo, nPo, nGo := 600, 150, 120 // large-offset values (c03big.go); a quarter of the S and M jobs use them too
+	nGe, nSe, nMe := 200, 36, 36   // runs with events without any column (c03e.go)
 	if tier == "thorough" {
 		nD, nP, nG, nS = 60000, 15000, 12000, 900
 		nDo, nPo, nGo = 12000, 3000, 2400
+		nGe, nSe, nMe = 4000, 300, 300
 	}
 	all := append(append([]string{}, c3aggs...), c3welford...)
 	// (0) boundary family: every aggregator on the empty list, one value, one NULL, all equal
@@ -330,7 +332,13 @@ func runC03(tier string, seed uint64, o *Out) error {
 	o.Count("permuted")
 	// (3) GroupAggregator: front end of Add, several batches with Reset in between
 	for i := 0; i < nG+nGo; i++ {
-		if err := c3group(rng, o, i >= nG); err != nil {
+		if err := c3group(rng, o, i >= nG, false); err != nil {
+			return err
+		}
+	}
+	// (3e) the same with events that carry no column at all ({}): c03e.go
+	for i := 0; i < nGe; i++ {
+		if err := c3group(rng, o, i%5 == 4, true); err != nil {
 			return err
 		}
 	}
@@ -343,8 +351,9 @@ func runC03(tier string, seed uint64, o *Out) error {
 		result string
 		err    error
 		offset bool
+		bare   bool // missing cells are events without any column (c03e.go)
 	}
-	jobs := make([]*job, nS)
+	jobs := make([]*job, nS+nSe)
 	shapes := []string{"col", "col", "nest", "add1", "mul2"}
 	for i := range jobs {
 		j := &job{shape: shapes[rng.Intn(len(shapes))], n: rng.Range(1, 6)}
@@ -354,7 +363,8 @@ func runC03(tier string, seed uint64, o *Out) error {
 			agg := c3aggs[(perm+a*5)%len(c3aggs)]
 			j.aggs = append(j.aggs, [2]string{agg, c3param(rng, agg)})
 		}
-		if rng.Intn(3) == 0 {
+		j.bare = i >= nS
+		if rng.Intn(3) == 0 || (j.bare && rng.Intn(5) > 0) {
 			j.aggs = append(j.aggs, [2]string{"count_star", "-"})
 		}
 		nb := rng.Range(2, 5)
@@ -382,6 +392,9 @@ func runC03(tier string, seed uint64, o *Out) error {
 				}
 			}
 		}
+		if j.bare {
+			j.cells = c3sprinkleEmptyBatches(rng, j.cells, j.n)
+		}
 		jobs[i] = j
 	}
 	var wg sync.WaitGroup
@@ -393,7 +406,7 @@ func runC03(tier string, seed uint64, o *Out) error {
 		go func() {
 			defer wg.Done()
 			defer func() { <-sem }()
-			j.result, j.err = c3sql(j.shape, j.n, j.aggs, j.cells)
+			j.result, j.err = c3sql(j.shape, j.n, j.aggs, j.cells, j.bare)
 		}()
 	}
 	wg.Wait()
@@ -405,7 +418,15 @@ func runC03(tier string, seed uint64, o *Out) error {
 		for _, a := range j.aggs {
 			spec = append(spec, a[0], a[1])
 		}
-		o.Line("C03 S %s %d %d %s # %s # %s", j.shape, j.n, len(j.aggs), strings.Join(spec, " "), c3toks(j.cells), j.result)
+		fam := "S"
+		if j.bare {
+			fam = "SE"
+			o.Count("sql_empty_events")
+			if c3hasEmptyBatch(j.cells, j.n) {
+				o.Count("sql_batch_of_empty_events_only")
+			}
+		}
+		o.Line("C03 %s %s %d %d %s # %s # %s", fam, j.shape, j.n, len(j.aggs), strings.Join(spec, " "), c3toks(j.cells), j.result)
 		o.Count("sql_" + j.shape)
 		if j.offset {
 			o.Count("sql_offset")
@@ -416,9 +437,12 @@ func runC03(tier string, seed uint64, o *Out) error {
 	if tier == "thorough" {
 		nM = 1100
 	}
-	mjobs := make([]*c3mjob, nM)
+	mjobs := make([]*c3mjob, nM+nMe)
 	for i := range mjobs {
 		mjobs[i] = c3genMixed(rng)
+		if i >= nM {
+			c3makeBare(rng, mjobs[i])
+		}
 	}
 	for _, j := range mjobs {
 		j := j
@@ -427,7 +451,7 @@ func runC03(tier string, seed uint64, o *Out) error {
 		go func() {
 			defer wg.Done()
 			defer func() { <-sem }()
-			j.result, j.err = c3sqlRun(j.query(), j.n, len(j.calls), j.cells, c3mixedRow)
+			j.result, j.err = c3sqlRunB(j.query(), j.n, len(j.calls), j.cells, c3mixedRowOf(j.bare), false, j.bare)
 		}()
 	}
 	wg.Wait()
@@ -439,7 +463,15 @@ func runC03(tier string, seed uint64, o *Out) error {
 		for _, c := range j.calls {
 			spec = append(spec, c.agg, c.param, c.arg.tok())
 		}
-		o.Line("C03 M %d %d %s # %s # %s", j.n, len(j.calls), strings.Join(spec, " "), c3toks(j.cells), j.result)
+		fam := "M"
+		if j.bare {
+			fam = "ME"
+			o.Count("sqlmix_empty_events")
+			if c3hasEmptyBatch(j.cells, j.n) {
+				o.Count("sqlmix_batch_of_empty_events_only")
+			}
+		}
+		o.Line("C03 %s %d %d %s # %s # %s", fam, j.n, len(j.calls), strings.Join(spec, " "), c3toks(j.cells), j.result)
 		o.Count("sqlmix_" + j.family)
 		if j.offset {
 			o.Count("sqlmix_offset")
@@ -525,6 +557,7 @@ type c3mjob struct {
 	// the largest number of calls with pairwise different dotted arguments over one column
 	dottedSameCol int
 	offset        bool // large-offset rows (c03big.go)
+	bare          bool // missing cells are events without any column (c03e.go)
 }
 
 // c3offMixed: the pool for the rows of a select list of family M / H: arguments <col> op k with k <= 10 written as an
@@ -637,7 +670,7 @@ func c3mixedRow(i int, c c3val) map[string]any {
 
 // c3group drives aggregator.GroupAggregator directly. mode c: the field reads column x;
 // mode e: an expression evaluator is registered for the field (cell "m" = evaluation error).
-func c3group(rng *RNG, o *Out, offset bool) error {
+func c3group(rng *RNG, o *Out, offset bool, bare bool) error {
 	names := []string{"sum", "avg", "min", "max", "count", "stddev", "stddevs", "var", "vars", "median",
 		"first_value", "last_value", "nth_value", "collect", "deduplicate", "merge_agg", "count_star"}
 	k := rng.Range(1, 5)
@@ -647,6 +680,9 @@ func c3group(rng *RNG, o *Out, offset bool) error {
 	perm := rng.Intn(len(names))
 	for a := 0; a < k; a++ {
 		agg := names[(perm+a*3)%len(names)]
+		if bare && a == 0 && rng.Intn(4) > 0 { // count(*) is the aggregate that tells a row without columns from no row
+			agg = "count_star"
+		}
 		mode := "c"
 		if agg != "count_star" && rng.Intn(3) == 0 {
 			mode = "e"
@@ -686,10 +722,15 @@ func c3group(rng *RNG, o *Out, offset bool) error {
 		} else {
 			cells = c3genVals(rng, n, rng.Intn(2), true)
 		}
+		if bare {
+			cells = c3sprinkleEmpty(rng, cells)
+		}
 		for _, c := range cells {
 			row := map[string]any{"id": 1}
 			if !c.missing {
 				row["x"] = c.v
+			} else if bare {
+				row = map[string]any{} // an event without any column: still a row of the batch
 			}
 			if err := ga.Add(row); err != nil {
 				return err
@@ -717,7 +758,18 @@ func c3group(rng *RNG, o *Out, offset bool) error {
 	for _, f := range flds {
 		spec = append(spec, f.agg, f.mode, "-")
 	}
-	o.Line("C03 G %d %s # %s # %s", k, strings.Join(spec, " "), strings.Join(cellsOut, " # "), strings.Join(resOut, " # "))
+	fam := "G"
+	if bare {
+		fam = "GE"
+		o.Count("group_empty_events")
+		for _, c := range cellsOut {
+			if c != "" && strings.Trim(c, "m ") == "" {
+				o.Count("group_batch_of_empty_events_only")
+				break
+			}
+		}
+	}
+	o.Line("C03 %s %d %s # %s # %s", fam, k, strings.Join(spec, " "), strings.Join(cellsOut, " # "), strings.Join(resOut, " # "))
 	o.Count("group_batches_" + fmt.Sprint(nb))
 	if offset {
 		o.Count("group_offset")
@@ -725,7 +777,7 @@ func c3group(rng *RNG, o *Out, offset bool) error {
 	return nil
 }
 
-func c3sql(shape string, n int, aggs [][2]string, cells []c3val) (string, error) {
+func c3sql(shape string, n int, aggs [][2]string, cells []c3val, bare bool) (string, error) {
 	arg := map[string]string{"col": "x", "nest": "n.v", "add1": "x + 1", "mul2": "x * 2"}[shape]
 	var sel []string
 	for i, a := range aggs {
@@ -741,7 +793,10 @@ func c3sql(shape string, n int, aggs [][2]string, cells []c3val) (string, error)
 		}
 	}
 	q := "SELECT " + strings.Join(sel, ", ") + ", max(rid) AS lid FROM stream GROUP BY CountingWindow(" + fmt.Sprint(n) + ")"
-	return c3sqlRun(q, n, len(aggs), cells, func(i int, c c3val) map[string]any {
+	return c3sqlRunB(q, n, len(aggs), cells, func(i int, c c3val) map[string]any {
+		if bare && c.missing {
+			return map[string]any{}
+		}
 		row := map[string]any{"rid": i}
 		if shape == "nest" {
 			if c.missing {
@@ -755,7 +810,7 @@ func c3sql(shape string, n int, aggs [][2]string, cells []c3val) (string, error)
 			row["x"] = c.v
 		}
 		return row
-	})
+	}, false, bare)
 }
 
 // c3sqlRun runs one query instance over the rows of the cells (CountingWindow(n): batch b = rows b*n .. b*n+n-1)
@@ -768,6 +823,27 @@ func c3sqlRun(q string, n, k int, cells []c3val, mkRow func(i int, c c3val) map[
 // over, so the wait first reads the counting window's own statistics (every full batch sent and taken by the
 // consumer) and only then waits for the sinks to fall quiet; a missing batch is printed as E and is no error.
 func c3sqlRunW(q string, n, k int, cells []c3val, mkRow func(i int, c c3val) map[string]any, sparse bool) (string, error) {
+	return c3sqlRunB(q, n, k, cells, mkRow, sparse, false)
+}
+
+// c3sqlRunB: bare = the missing cells of the run are events without any column ({}: no rid either). max(rid) then is
+// the largest rid of the batch's rows that carry columns (any row of the batch, not only the last), and NULL for a
+// batch of such events only: the rows that come with a NULL lid are matched, in order of arrival, with the batches
+// whose cells are all missing (one processing goroutine, synchronous sink; such batches are all alike - count(*) = N,
+// nothing else - so a HAVING clause delivers all of them or none).
+func c3sqlRunB(q string, n, k int, cells []c3val, mkRow func(i int, c c3val) map[string]any, sparse bool, bare bool) (string, error) {
+	var emptyBatches []int
+	if bare {
+		for b := 0; b+1 <= len(cells)/n; b++ {
+			all := true
+			for _, c := range cells[b*n : b*n+n] {
+				all = all && c.missing
+			}
+			if all {
+				emptyBatches = append(emptyBatches, b)
+			}
+		}
+	}
 	s := streamsql.New(streamsql.WithDiscardLog())
 	if err := s.Execute(q); err != nil {
 		s.Stop()
@@ -784,6 +860,22 @@ func c3sqlRunW(q string, n, k int, cells []c3val, mkRow func(i int, c c3val) map
 			var parts []string
 			for i := 0; i < k; i++ {
 				parts = append(parts, c3enc(r[fmt.Sprintf("a%d", i)]))
+			}
+			if bare {
+				b := -1
+				if r["lid"] == nil {
+					if len(emptyBatches) > 0 {
+						b, emptyBatches = emptyBatches[0], emptyBatches[1:]
+					}
+				} else if lid >= 0 && lid < len(cells) && !cells[lid].missing {
+					b = lid / n
+				}
+				if _, dup := got[b]; dup || b < 0 {
+					extra++
+					continue
+				}
+				got[b] = strings.Join(parts, " ")
+				continue
 			}
 			if _, dup := got[lid/n]; dup || (lid+1)%n != 0 {
 				extra++
@@ -821,7 +913,8 @@ func c3sqlRunW(q string, n, k int, cells []c3val, mkRow func(i int, c c3val) map
 			out = append(out, "E")
 		}
 	}
-	if extra > 0 || (len(got) != nb && !sparse) {
+	// bare: a batch without a row is printed as E above and judged as such (the definition says which row is missing)
+	if extra > 0 || (len(got) != nb && !sparse && !bare) {
 		out = append(out, fmt.Sprintf("e%d", extra))
 	}
 	return strings.Join(out, " # "), nil
